@@ -229,59 +229,78 @@ func (C18) Execute(sc *core.Scenario, keepLog bool) *core.Result {
 				if cs.user >= 0 {
 					continue // LOGIN in an authenticated session never reaches the jail
 				}
-				// three consecutive failures, then the next attempt must wait out the jail
-				for failures < 3 {
-					r := s.Cmd("LOGIN alice wrong%d", failures)
-					if r.OK() {
-						e.Fail("credentials", "LOGIN with a wrong password answered OK")
+				// (a held attempt with a wrong password is followed at once by a second round in
+				// half of the cases: the count of failures must have started again, so two more
+				// failures arm the jail again)
+				rounds := 1
+				if abs(a.Arg(3))%2 == 1 && abs(a.Arg(4))%2 == 1 {
+					rounds = 2
+				}
+				var status string
+				for round := 0; round < rounds; round++ {
+					// three consecutive failures, then the next attempt must wait out the jail
+					for failures < 3 {
+						r := s.Cmd("LOGIN alice wrong%d", failures)
+						if r.OK() {
+							e.Fail("credentials", "LOGIN with a wrong password answered OK")
+							return
+						}
+						failures++
+					}
+					tag := s.C.NextTag()
+					start := time.Now()
+					s.W.Sim.SetLabel(s.Label)
+					// the attempt that is held back has the right or a wrong password: after a
+					// wrong one the count of consecutive failures starts again at one
+					heldPass := "pa"
+					if abs(a.Arg(3))%2 == 1 {
+						heldPass = "wrong-again"
+					}
+					s.C.Conn.ClientSend([]byte(fmt.Sprintf("%s LOGIN alice %s\r\n", tag, heldPass)))
+					e.W.Quiesce()
+					answered := func() (bool, string) {
+						lines, _ := s.Poll()
+						for _, l := range lines {
+							if l.Tag == tag {
+								return true, l.Status
+							}
+						}
+						return false, ""
+					}
+					if ok, st := answered(); ok {
+						e.Fail("jail", "after three consecutive failed logins the next LOGIN was answered (%s) at once, %v before the jail time %v had passed", st, jail-time.Since(start), jail)
 						return
 					}
-					failures++
-				}
-				tag := s.C.NextTag()
-				cs2 := cs
-				if cs2.user >= 0 {
-					// a LOGIN in an authenticated session is refused before it reaches the jail
-					continue
-				}
-				start := time.Now()
-				s.W.Sim.SetLabel(s.Label)
-				s.C.Conn.ClientSend([]byte(fmt.Sprintf("%s LOGIN alice pa\r\n", tag)))
-				e.W.Quiesce()
-				answered := func() (bool, string) {
-					lines, _ := s.Poll()
-					for _, l := range lines {
-						if l.Tag == tag {
-							return true, l.Status
-						}
+					e.W.Advance(jail - 10*time.Millisecond)
+					if ok, st := answered(); ok {
+						e.Fail("jail", "the LOGIN after three failures was answered (%s) %v after it was sent, before the jail time %v had passed", st, time.Since(start), jail)
+						return
 					}
-					return false, ""
-				}
-				if ok, st := answered(); ok {
-					e.Fail("jail", "after three consecutive failed logins the next LOGIN was answered (%s) at once, %v before the jail time %v had passed", st, jail-time.Since(start), jail)
-					return
-				}
-				e.W.Advance(jail - 10*time.Millisecond)
-				if ok, st := answered(); ok {
-					e.Fail("jail", "the LOGIN after three failures was answered (%s) %v after it was sent, before the jail time %v had passed", st, time.Since(start), jail)
-					return
-				}
-				e.W.Advance(20 * time.Millisecond)
-				ok, status := answered()
-				if !ok {
-					e.W.Advance(time.Second)
-					ok, status = answered()
-				}
-				if !ok {
-					e.Fail("jail", "the LOGIN held in the login jail was not answered after the jail time %v had passed", jail)
-					return
-				}
-				jailed++
-				e.St.Probes["jail_entered"]++
-				e.St.Faults["clock_advance"] += 2
-				failures = 0
-				if status == "OK" {
-					cs.user = 0
+					e.W.Advance(20 * time.Millisecond)
+					ok, st2 := answered()
+					status = st2
+					if !ok {
+						e.W.Advance(time.Second)
+						ok, status = answered()
+					}
+					if !ok {
+						e.Fail("jail", "the LOGIN held in the login jail was not answered after the jail time %v had passed", jail)
+						return
+					}
+					jailed++
+					e.St.Probes["jail_entered"]++
+					e.St.Faults["clock_advance"] += 2
+					failures = 0
+					if status == "OK" {
+						cs.user = 0
+					} else if heldPass != "pa" {
+						failures = 1
+						e.St.Probes["jail_left_by_failed_login"]++
+					}
+					if (status == "OK") != (heldPass == "pa") {
+						e.Fail("credentials", "LOGIN alice %s after the jail answered %s", heldPass, status)
+						return
+					}
 				}
 				e.Tr.Event("jail", status)
 				continue
